@@ -71,9 +71,16 @@ pub fn install_panic_hook() {
         if std::thread::panicking() && panic_count_is_double() {
             // a second panic while unwinding: the process is about to abort.  Save the case.
             let j = JOURNAL.with(|j| j.borrow().clone());
+            let first = LAST_PANIC.with(|p| p.borrow().clone()).map(|p| format!("{}:{}: {}", p.file, p.line, p.msg)).unwrap_or_default();
             if let Some((prop, case)) = j {
-                let path = write_failure_file(&prop, &case, &format!("double panic (abort): {}:{}: {}", file, line, msg), "abort");
-                println!("ABORT-CASE property={} replay={} second-panic={}:{}: {}", prop, path.display(), file, line, msg);
+                let path = write_failure_file(&prop, &case, &format!("process abort: first panic {} ; second panic while unwinding {}:{}: {}", first, file, line, msg), "abort");
+                println!("  first panic: {}", first);
+                println!("  second panic (in a destructor, while unwinding): {}:{}: {}", file, line, msg);
+                println!("ABORT-CASE property={} replay={}", prop, path.display());
+            }
+            else {
+                eprintln!("INFRA: double panic outside a case: first {} ; second {}:{}: {}", first, file, line, msg);
+                std::process::exit(2);
             }
             // exit code 3 is translated by ./check
             std::process::exit(3);
@@ -357,7 +364,7 @@ pub fn threads() -> usize {
 }
 
 /// evaluate one case: journal, exec under catch, split failures into known / unknown
-fn eval_case<P: Prop>(p: &P, case: &P::Case, known: &[Known], stats: &Stats) -> (Vec<Failure>, bool) {
+fn eval_case<P: Prop>(p: &P, case: &P::Case, known: &[Known], stats: &Stats, record: bool) -> (Vec<Failure>, bool) {
     let js = serde_json::to_string(case).expect("case serialises");
     JOURNAL.with(|j| *j.borrow_mut() = Some((p.id().to_string(), js.clone())));
     let ex = match catch(|| p.exec(case)) {
@@ -373,6 +380,15 @@ fn eval_case<P: Prop>(p: &P, case: &P::Case, known: &[Known], stats: &Stats) -> 
         }
     };
     JOURNAL.with(|j| *j.borrow_mut() = None);
+    if !record {
+        let mut unknown = Vec::new();
+        for f in ex.failures {
+            if !known.iter().any(|k| k.property == p.id() && k.key == f.key) {
+                unknown.push(f);
+            }
+        }
+        return (unknown, ex.nontrivial);
+    }
     stats.evaluations.fetch_add(1, Ordering::Relaxed);
     {
         let mut c = stats.classes.lock().unwrap();
@@ -434,7 +450,7 @@ pub fn replay_one<P: Prop>(p: &P, path: &Path) -> i32 {
             return 2;
         }
     };
-    let (unknown, _) = eval_case(p, &case, &known, &stats);
+    let (unknown, _) = eval_case(p, &case, &known, &stats, true);
     print_known_lines(p.id(), &known, &stats);
     if unknown.is_empty() {
         println!("replay {}: property {} held", path.display(), p.id());
@@ -486,7 +502,7 @@ pub fn run<P: Prop>(p: &P, tier: Tier) -> i32 {
             match load_case::<P::Case>(&f) {
                 Ok(case) => {
                     replayed += 1;
-                    let (unknown, _) = eval_case(p, &case, &known, &stats);
+                    let (unknown, _) = eval_case(p, &case, &known, &stats, true);
                     if !unknown.is_empty() {
                         violations.push((f.clone(), unknown));
                     }
@@ -516,7 +532,7 @@ pub fn run<P: Prop>(p: &P, tier: Tier) -> i32 {
                     if i >= fixed.len() {
                         break;
                     }
-                    let (unknown, _) = eval_case(p, &fixed[i], &known, &stats);
+                    let (unknown, _) = eval_case(p, &fixed[i], &known, &stats, true);
                     if !unknown.is_empty() {
                         let js = serde_json::to_string(&fixed[i]).unwrap();
                         let path = write_failure_file(p.id(), &js, &unknown[0].msg, "fail");
@@ -564,13 +580,16 @@ pub fn run<P: Prop>(p: &P, tier: Tier) -> i32 {
                             return Ok(()); // another shard is shrinking a failure: stop exploring
                         }
                         let mut g = G::new(&choices);
-                        let case = p.gen(&mut g, tier);
+                        let case = match catch(|| p.gen(&mut g, tier)) {
+                            Ok(c) => c,
+                            Err(pr) => {
+                                eprintln!("INFRA: generator panicked (harness bug, not a violation): {}:{}: {}", pr.file, pr.line, pr.msg);
+                                std::process::exit(2);
+                            }
+                        };
                         g.finish();
-                        let (unknown, _) = eval_case(p, &case, known, stats);
-                        if failed_here.get() {
-                            // shrink re-runs are not new evaluations
-                            stats.evaluations.fetch_sub(1, Ordering::Relaxed);
-                        }
+                        // shrink re-runs are not new evaluations
+                        let (unknown, _) = eval_case(p, &case, known, stats, !failed_here.get());
                         if unknown.is_empty() {
                             Ok(())
                         } else {
@@ -585,8 +604,7 @@ pub fn run<P: Prop>(p: &P, tier: Tier) -> i32 {
                         let mut g = G::new(&choices);
                         let case = p.gen(&mut g, tier);
                         // re-evaluate the minimal case to report its own failure text
-                        let (unknown, _) = eval_case(p, &case, known, stats);
-                        stats.evaluations.fetch_sub(1, Ordering::Relaxed);
+                        let (unknown, _) = eval_case(p, &case, known, stats, false);
                         let fails = if unknown.is_empty() { last_fail.borrow().clone() } else { unknown };
                         let js = serde_json::to_string(&case).unwrap();
                         let path = write_failure_file(p.id(), &js, &fails.get(0).map(|f| f.msg.clone()).unwrap_or_default(), "fail");
